@@ -552,3 +552,39 @@ def rule_expert_order_cond(mod, rep):
             if not (v.op == "add" and any(o[0] == "c" and o[1] == 1 for o in v.ops)):
                 why.append("stored warning value is not n + 1")
         rep.check(not why, "X-ORD-COND", "%s#cond" % f.name, "norm after equilibration; n+1 warning guarded by rcond<eps after solve+refine, rejoining", "; ".join(sorted(set(why))), f.file, f.name)
+
+
+def rule_factored_readonly(mod, rep):
+    """C08: a solve-only call (fact = FACTORED) reaches no callee whose effect summary writes through A, L, U, perm_r or perm_c"""
+    from .. import effects
+    rep.rule("X-RO", "p?gssvx with fact = FACTORED (all Stype x trans x equed partitions): no reached callee has a may-write effect rooted at the parameters A, L, U, perm_r, "
+             "perm_c (effect summaries translated through the abstract arguments), and the driver itself stores nothing there", floor=24)
+    E = effects.get(mod)
+    for prec, f in fam(mod, "p?gssvx"):
+        f, rows = x_table(mod, prec)
+        prot = {f.pindex(n): n for n in ("A", "L", "U", "perm_r", "perm_c")}
+        for part, it, got in rows:
+            kw = part.kw
+            if kw["fact"] != "FACTORED":
+                continue
+            bad = []
+            for ins, args in it.call_events:
+                cal = ins.callee or ""
+                if cal not in mod.funcs:
+                    continue
+                for w in E.W[cal]:
+                    if w[0] != "A":
+                        continue
+                    a = args[w[1]] if w[1] < len(args) else None
+                    if a is None or a[0] != "p":
+                        continue
+                    base = a[1][0]
+                    if base[0] == "A" and base[1] in prot:
+                        # writing *info / statistics through other parameters is fine; this is a protected root
+                        bad.append("%s() may write %s%s" % (cal, fmt_path(a[1], f), fmt_path((("K", ""),) + tuple(x for x in w[2] if x != ("**",)))))
+            for a in got:
+                if a[0] in ("A-store", "LUperm-store"):
+                    bad.append("driver stores into %s" % a[1])
+            key = "%s#%s/%s/eq=%s" % (f.name, kw["Stype"][4:], kw["trans"], kw["equed_in"])
+            rep.check(not bad, "X-RO", key, "solve-only call leaves A, L, U and the permutations untouched (%d callees inspected)" % len(it.call_events),
+                      "a solve-only call can modify a protected object: " + "; ".join(sorted(set(bad))[:4]), f.file, f.name)
